@@ -65,8 +65,50 @@ def _sub0(n: ast.AST, obj: str, idx: int) -> bool:
             and isinstance(n.slice, ast.Constant) and n.slice.value == idx)
 
 
+_STR_METHODS = {"strip", "lstrip", "rstrip", "join", "format", "lower", "upper"}
+
+
+def _pure_str(e: ast.AST) -> bool:
+    """effect-free argument of a log call, as T._pure, plus the str methods strip/join/format/... of such values and
+    `x or y` (T.parse keeps a log line with such an argument; for the reader of req_iter_from_lines it is still only a
+    log line: these methods of str values have no effect, and a subscript that could raise is evaluated again by the
+    modelled statement that follows)"""
+    if T._pure(e):
+        return True
+    if isinstance(e, ast.Call) and isinstance(e.func, ast.Attribute) and e.func.attr in _STR_METHODS and not e.keywords:
+        return _pure_str(e.func.value) and all(_pure_str(a) for a in e.args)
+    if isinstance(e, ast.BoolOp):
+        return all(_pure_str(v) for v in e.values)
+    if isinstance(e, ast.Subscript):
+        return _pure_str(e.value) and _pure_str(e.slice)
+    return False
+
+
+def _is_lenient_log(st: ast.AST) -> bool:
+    if not (isinstance(st, ast.Expr) and isinstance(st.value, ast.Call) and isinstance(st.value.func, ast.Attribute)):
+        return False
+    fn = st.value.func
+    if fn.attr not in T.LOG_METHODS:
+        return False
+    recv = ast.unparse(fn.value)
+    if not (recv in ("LOG", "logger", "logging", "log", "_LOG", "_logger") or recv.startswith("logging.getLogger(")):
+        return False
+    return all(_pure_str(a) for a in st.value.args) and all(_pure_str(k.value) for k in st.value.keywords)
+
+
+class _DropLogs(ast.NodeTransformer):
+    def generic_visit(self, node):
+        node = super().generic_visit(node)
+        for field in ("body", "orelse", "finalbody"):
+            b = getattr(node, field, None)
+            if isinstance(b, list) and b and isinstance(b[0], ast.stmt):
+                nb = [st for st in b if not _is_lenient_log(st)]
+                setattr(node, field, nb if (nb or field != "body") else [ast.Pass()])
+        return node
+
+
 def read_req_iter() -> Dict[str, Any]:
-    f = T.func(T.parse("req_compile/utils.py"), "req_iter_from_lines")
+    f = _DropLogs().visit(T.func(T.parse("req_compile/utils.py"), "req_iter_from_lines"))
     r: Dict[str, Any] = {}
     # req_line = req_line.strip()
     strips = [c for c in _method_calls(f, "req_line", "strip") if not c.args]
@@ -155,10 +197,10 @@ def read_req_iter() -> Dict[str, Any]:
         "    flag, has_value, value = line_parts[0].partition('=')\n"
         "    if has_value and flag in {f!r}:\n"
         "        line_parts[:1] = [flag, value]\n").format(p=grammar_prefix, f=grammar_flags)
-    if ast.dump(ast.parse(expected).body[0]) != ast.dump(g7):
+    if ast.dump(T.parse_src(expected).body[0]) != ast.dump(g7):
         raise TranslateError("the option-line grammar block differs from the recognised shape")
     cre = T.module_const(T.parse("req_compile/utils.py"), "_COMMENT_RE")
-    if ast.dump(cre) != ast.dump(ast.parse("re.compile(r'(^|\\s+)#.*$')").body[0].value):
+    if ast.dump(cre) != ast.dump(T.parse_src("re.compile(r'(^|\\s+)#.*$')").body[0].value):
         raise TranslateError("_COMMENT_RE is not re.compile(r'(^|\\s+)#.*$')")
     body = body[:7] + body[8:]
     s7 = body[7]
@@ -187,8 +229,14 @@ def read_req_iter() -> Dict[str, Any]:
             and isinstance(p.func.value.slice, ast.Constant) and isinstance(p.func.value.slice.value, int)):
         raise TranslateError("second join argument is not `line_parts[K].strip()`")
     r["include_arg_index"] = p.func.value.slice.value
-    inc_call = [n for n in ast.walk(s7.body[0]) if isinstance(n, ast.Call) and _is_name(n.func, "req_iter_from_file")]
-    _one(inc_call, "req_iter_from_file call in the include branch")
+    inc = s7.body[0] if len(s7.body) == 1 else None
+    ok = (isinstance(inc, ast.For) and isinstance(inc.target, ast.Name) and not inc.orelse and isinstance(inc.iter, ast.Call)
+          and _is_name(inc.iter.func, "req_iter_from_file") and len(inc.iter.args) == 2 and not inc.iter.keywords
+          and inc.iter.args[0] is j and _is_name(inc.iter.args[1], "parameters") and len(inc.body) == 1
+          and isinstance(inc.body[0], ast.Expr) and isinstance(inc.body[0].value, ast.Yield)
+          and _is_name(inc.body[0].value.value, inc.target.id))
+    if not ok:
+        raise TranslateError("the include branch is not `for req in req_iter_from_file(os.path.join(..), parameters): yield req`")
     # elif line_parts[0].startswith(P): parameters.extend(line_parts)
     if not (len(s7.orelse) == 1 and isinstance(s7.orelse[0], ast.If)):
         raise TranslateError("elif branch missing")
@@ -285,7 +333,7 @@ def read_bazel() -> Dict[str, Any]:
     if not (isinstance(it, ast.Call) and isinstance(it.func, ast.Attribute) and it.func.attr == "splitlines"
             and _is_name(it.func.value, "content") and not it.args):
         raise TranslateError("loop is not over content.splitlines()")
-    if not (loop.body and ast.dump(loop.body[0]) == ast.dump(ast.parse("line = line.strip()").body[0])):
+    if not (loop.body and ast.dump(loop.body[0]) == ast.dump(T.parse_src("line = line.strip()").body[0])):
         raise TranslateError("the scanner loop does not start with `line = line.strip()`")
     rules = []
     for st in loop.body[1:]:
@@ -432,7 +480,7 @@ def read_cli() -> Dict[str, Any]:
     tail_src += "args.no_index = args.no_index or {r}.no_index\n".format(r=rname)
     tail_src += ("for editable_source in {r}.editable_sources:\n    input_reqs.append(_create_dist_from_path(editable_source))\n"
                  "args.sources += {r}.editable_sources\n").format(r=rname)
-    want = [ast.dump(x) for x in ast.parse(tail_src).body]
+    want = [ast.dump(x) for x in T.parse_src(tail_src).body]
     have = [ast.dump(x) for x in b[i + 1:]]
     if want != have:
         raise TranslateError("the merge of the re-parsed options into args (index_urls, extra_index_urls, find_links as ordered "
@@ -473,15 +521,18 @@ def read_accumulation() -> Dict[str, Any]:
         "    index_urls = index_urls.union(new_urls)\n"
         "    extra_index_urls = extra_index_urls.union(new_extras)\n"
         "    find_links.update({os.path.normpath(input_file.parent / link): solution.parent for link in new_links})\n")
-    if ast.dump(ast.parse(want_src).body[0]) != ast.dump(loop):
+    if ast.dump(T.parse_src(want_src).body[0]) != ast.dump(loop):
         raise TranslateError("the loop over requirements_ins in compile_requirements does not read each file and accumulate "
                              "index_urls / extra_index_urls (union) and find_links (update) in the recognised shape")
     inits = {}
     for st in cr.body:
-        if isinstance(st, ast.AnnAssign) and isinstance(st.target, ast.Name) and st.target.id in ("index_urls", "extra_index_urls", "find_links"):
-            inits[st.target.id] = ast.dump(st.value) if st.value is not None else None
-    if inits != {"index_urls": ast.dump(ast.parse("set()").body[0].value), "extra_index_urls": ast.dump(ast.parse("set()").body[0].value),
-                 "find_links": ast.dump(ast.parse("{}").body[0].value)}:
+        if isinstance(st, ast.For):
+            break                      # only what precedes the loop over requirements_ins
+        if (isinstance(st, ast.Assign) and len(st.targets) == 1 and isinstance(st.targets[0], ast.Name)
+                and st.targets[0].id in ("index_urls", "extra_index_urls", "find_links")):
+            inits[st.targets[0].id] = ast.dump(st.value)
+    if inits != {"index_urls": ast.dump(T.parse_src("set()").body[0].value), "extra_index_urls": ast.dump(T.parse_src("set()").body[0].value),
+                 "find_links": ast.dump(T.parse_src("{}").body[0].value)}:
         raise TranslateError("index_urls / extra_index_urls / find_links of compile_requirements do not start empty before the loop")
     calls = [n for n in ast.walk(cr) if isinstance(n, ast.Call) and _is_name(n.func, "build_repo")]
     br = _one(calls, "build_repo call in compile_requirements")
@@ -493,18 +544,18 @@ def read_accumulation() -> Dict[str, Any]:
     }
     for k, src in want_kw.items():
         v = _kw(br, k)
-        if v is None or ast.dump(v) != ast.dump(ast.parse(src).body[0].value):
+        if v is None or ast.dump(v) != ast.dump(T.parse_src(src).body[0].value):
             raise TranslateError(f"build_repo({k}=...) in compile_requirements is not `{src}`")
     # command line: every file's parameters are appended to the one list that is re-parsed
     cm = T.func(T.parse("req_compile/cmdline.py"), "compile_main")
-    want_loop = ast.dump(ast.parse(
+    want_loop = ast.dump(T.parse_src(
         "for req in list(input_reqs):\n"
         "    if isinstance(req, RequirementsFile):\n"
         "        if req.parameters:\n"
         "            extra_parameters.extend(req.parameters)\n").body[0])
     if not any(isinstance(n, ast.For) and ast.dump(n) == want_loop for n in ast.walk(cm)):
         raise TranslateError("compile_main does not extend extra_parameters with the parameters of every RequirementsFile input")
-    want_read = ast.dump(ast.parse("input_reqs = [_create_input_reqs(input_arg, extra_parameters) for input_arg in input_args]").body[0])
+    want_read = ast.dump(T.parse_src("input_reqs = [_create_input_reqs(input_arg, extra_parameters) for input_arg in input_args]").body[0])
     if not any(isinstance(n, ast.Assign) and ast.dump(n) == want_read for n in ast.walk(cm)):
         raise TranslateError("compile_main does not read every input argument in order with _create_input_reqs")
     return {"accumulates": True}
